@@ -414,8 +414,8 @@ func (dir fileSystem) List() (keys []uint, err error) {
 			continue
 		}
 		u, err := strconv.ParseUint(name, 16, 17)
-		if err != nil {
-			continue
+		if err != nil || name != fmt.Sprintf("%05x", u) {
+			continue // not a name from Save, e.g., upper case
 		}
 		keys = append(keys, uint(u))
 	}
